@@ -240,3 +240,21 @@ impl AsyncWrite for UtpStreamWriteHalf {
         Poll::Pending
     }
 }
+
+// Verification hook: read-only snapshot. See src/verif.rs.
+#[cfg(ikatson_librqbit_utp_verif)]
+impl UserTx {
+    pub fn verif_snapshot(&self) -> crate::verif::UserTxSnapshot {
+        let g = self.locked.read();
+        let c = self.consumer.lock();
+        crate::verif::UserTxSnapshot {
+            ring_len: c.occupied_len(),
+            ring_capacity: c.capacity().get(),
+            vsock_closed: g.vsock_closed,
+            writer_dropped: g.writer_dropped,
+            writer_shutdown: g.writer_shutdown,
+            dispatcher_waker_set: g.dispatcher_waker.is_some(),
+            writer_waker_set: g.writer_waker.is_some(),
+        }
+    }
+}
